@@ -37,9 +37,17 @@ Fixpoint take (n : nat) (bs : bytes) : option (bytes * bytes) :=
   end.
 
 (* the same with the length given as an N (wire-supplied lengths); never
-   converts a large N to nat: compares with the available length first *)
-Definition take_N (n : N) (bs : bytes) : option (bytes * bytes) :=
-  if n <=? N.of_nat (length bs) then take (N.to_nat n) bs else None.
+   converts a large N to nat and never walks further than min(n, available) *)
+Fixpoint take_Nf (bs : bytes) (n : N) {struct bs} : option (bytes * bytes) :=
+  if n =? 0 then Some ([], bs) else
+  match bs with
+  | [] => None
+  | b :: r => match take_Nf r (N.pred n) with
+              | Some (h, t) => Some (b :: h, t)
+              | None => None
+              end
+  end.
+Definition take_N (n : N) (bs : bytes) : option (bytes * bytes) := take_Nf bs n.
 
 Definition bytes_ok (bs : bytes) : bool := forallb (fun b => b <? 256) bs.
 
